@@ -31,6 +31,7 @@ func dump(args []string) {
 	exit := fs.String("exit", "err=nil", "exit spec")
 	blocks := fs.Bool("blocks", false, "dump per-block facts")
 	at := fs.String("at", "", "print facts before calls whose callee label matches this glob")
+	each := fs.Bool("each", false, "print, per exit, the facts beyond the common ones")
 	dir := fs.String("dir", "/repo", "repo dir")
 	fs.Parse(args)
 	t0 := time.Now()
@@ -79,6 +80,16 @@ func dump(args []string) {
 				pred = fmt.Sprintf(" via block %d", ex.Pred.Index)
 			}
 			fmt.Printf("  exit %s%s (%d facts)\n", p.Pos(ex.Ret.Pos()), pred, len(ex.Facts))
+		}
+		if *each {
+			for _, ex := range exits {
+				fmt.Printf("  -- exit %s extra facts\n", p.Pos(ex.Ret.Pos()))
+				for _, k := range ex.Facts.Keys() {
+					if _, common := facts[k]; !common && !strings.HasPrefix(k, "called(") && !strings.Contains(k, "opaque:cycle") {
+						fmt.Printf("     %s\n", k)
+					}
+				}
+			}
 		}
 		for _, k := range facts.Keys() {
 			via := facts[k].Via
